@@ -69,6 +69,23 @@ package acl
 // the stored names already passed by the walk: they are exactly the stored prefixes of the last visited one
 //@ pure walked(tree *radix.Tree, q string, started bool, last string) bool = started && radixHas(tree, q) && prefixOf(q, last)
 
+// A rule is filed in the exact or in the prefix slot of its segment's leaf - the slot it is not meant for, every other
+// segment's leaf and every slot already filled elsewhere stay as they were (so an exact rule and a prefix rule for the
+// same name coexist, whichever is inserted first).
+//@ func insertPolicyIntoRadix
+//@ props C08
+//@ results err
+//@ requires tree != nil
+//@ requires[leaves-well-typed] forall k string :: radixHas(tree, k) ==> is[*policyAuthorizerRadixLeaf](radixGet(tree, k)) && leafAt(tree, k) != nil
+//@ ensures[invalid-level-rejected] err != nil ==> (forall k string :: radixHas(tree, k) == old(radixHas(tree, k)) && radixGet(tree, k) == old(radixGet(tree, k)))
+//@ ensures[leaf-present] err == nil ==> radixHas(tree, segment) && is[*policyAuthorizerRadixLeaf](radixGet(tree, segment)) && leafAt(tree, segment) != nil
+//@ ensures[existing-leaf-reused] err == nil && old(radixHas(tree, segment)) ==> radixGet(tree, segment) == old(radixGet(tree, segment))
+//@ ensures[prefix-slot-set] err == nil && prefix ==> leafAt(tree, segment).prefix != nil && leafAt(tree, segment).exact == ite(old(radixHas(tree, segment)), old(leafAt(tree, segment).exact), nil)
+//@ ensures[exact-slot-set] err == nil && !prefix ==> leafAt(tree, segment).exact != nil && leafAt(tree, segment).prefix == ite(old(radixHas(tree, segment)), old(leafAt(tree, segment).prefix), nil)
+//@ ensures[other-segments-untouched] forall k string :: k != segment ==> radixHas(tree, k) == old(radixHas(tree, k)) && radixGet(tree, k) == old(radixGet(tree, k))
+//@ ensures[level-recorded] err == nil ==> ite(prefix, leafAt(tree, segment).prefix.access, leafAt(tree, segment).exact.access) == ite(strLower(policy) == PolicyDeny, AccessDeny, ite(strLower(policy) == PolicyRead, AccessRead, ite(strLower(policy) == PolicyList, AccessList, AccessWrite)))
+//@ ensures[only-known-levels] err == nil ==> strLower(policy) == PolicyDeny || strLower(policy) == PolicyRead || strLower(policy) == PolicyList || strLower(policy) == PolicyWrite
+
 // Exact-match rule wins; otherwise the prefix rule of the LONGEST stored prefix of the name that has one.
 //@ func getPolicy
 //@ props C08
